@@ -69,7 +69,7 @@ def heap_constants(n_obj=2, kinds=("N",), budgets=(1, 2), grans=("P1", "P2"), ma
 def heap_cfg(constants, emit):
     return cfg_text(spec="SpecEmit", constants=constants, invariants=ALL_INVS + (["EmitStates"] if emit == "states" else []),
                     properties=ALL_PROPS, constraints=["Bounded"],
-                    action_constraints=(["EmitClasses"] if emit == "classes" else []),
+                    action_constraints=(["EmitClasses"] if emit in ("classes", "pairs") else []),
                     symmetry="Perms", view="vw")
 
 
@@ -120,9 +120,12 @@ def core_models(tier, d):
         # (3) fault injection (C11): trace panics at the k-th trace call after j children, panicking
         #     callbacks, failing constructors and root maps
         ("n2_faults", "MC_GcHeap", hc("classes", n_obj=2, fault_ats=(0, 1), vias=VIAS, max_ops=6 if quick else 8), 2, None, 3000),
-        # (4) dynamic root sets (C14): a set, two nodes, two handles; stash / clone / drop / slot reuse
-        ("n3_dyn", "MC_GcHeap", hc("classes", n_obj=3, max_handles=2, finalize=False, budgets=(1,), grans=("P1",),
-                                   weak=False, unlink=False, max_ops=6 if quick else 8), 2, None, 3000),
+        # (4) dynamic root sets (C14): a set, two nodes, two handles; stash / clone / drop / slot reuse.
+        #     Witnesses per PAIR of transition classes, so that what follows a stash is replayed too.
+        ("n3_dyn", "MC_GcHeap", hc("pairs", n_obj=3, max_handles=2, finalize=False, budgets=(1,), grans=("P1",),
+                                   weak=False, unlink=False, max_ops=6 if quick else 8), 1, None, 3000),
+        # (4b) consequences: one witness per (class of transition, operation that follows it)
+        ("n2_pairs", "MC_GcHeap", hc("pairs", n_obj=2, many=True, max_ops=6 if quick else 8), 1, None, 3000),
         # (5) two arenas on one thread (C20): interleavings of a reduced menu
         ("two_arenas", "TwoArenas", two_arenas_cfg(4 if quick else 5), None, 12000 if quick else 200000, 3000),
     ]
@@ -190,6 +193,7 @@ def core_engine(tier, d):
                 if tr not in keep and os.path.exists(tr):
                     os.remove(tr)
     return {"tier": tier, "tlc": tlc_runs, "replays": replays, "beh_files": bf, "samples": samples,
+            "nontrivial": count_nontrivial(bf),
             "models_memoised": models.get("memoised", False), "wall_s": round(time.time() - t0, 1)}
 
 
@@ -271,6 +275,9 @@ def check_core(prop, tier):
         # keeps alive / becomes collectable: the C01 / C02 / C05 rules on the dynamic-root executions
         viols += [v for v in m["viol"] if v["prop"] in ("C01", "C02", "C05") and v["source"].startswith("n3_dyn")]
     if prop == "C20":
+        # a crash that needs the history of earlier arenas of the same thread is shared state between arenas
+        viols += [v for v in m["viol"] if v["rule"] == "crash" and (v.get("extra") or {}).get("crash", {}).get("how") in ("with-history", "unconfirmed")
+                  and v not in viols]
         # each arena's C01-C05 guarantees hold regardless of what is done to the other
         viols += [v for v in m["viol"] if v["prop"] in ("C01", "C02", "C03", "C04", "C05") and v["source"].startswith("two_arenas")]
     if prop == "C11":
@@ -287,7 +294,7 @@ def check_core(prop, tier):
     states = sum(r["distinct"] for r in res["tlc"])
     trans = sum(r["generated"] for r in res["tlc"])
     accepted = m["runs"] - len({(v["source"], v["beh"]) for v in m["viol"]})
-    nontrivial = count_nontrivial(res["beh_files"])
+    nontrivial = res.get("nontrivial") or count_nontrivial(res["beh_files"])
     cov = {
         "states": states, "transitions": trans,
         "traces_validated_against_impl": max(accepted, 0),
@@ -586,6 +593,20 @@ def setup():
 def replay_file(path):
     """Re-run one recorded counterexample: replay its behaviour, validate the trace."""
     rec = json.load(open(path))
+    crash = (rec.get("extra") or {}).get("crash")
+    if crash and crash.get("how") in ("with-history", "unconfirmed"):
+        # the crash needs the same process history: re-run the shard up to that behaviour
+        models, _ = memo("model-quick", spec_key(f"-{seed()}"), lambda dd: core_models("quick", dd))
+        files = dict(tuple(x) for x in models["beh_files"])
+        src, profile = rec["source"].split(":")
+        binary = build_harness(profile)
+        dd = os.path.join(WORK, "replay-one")
+        os.makedirs(dd, exist_ok=True)
+        p = gcv.run_harness(binary, ["replay", "--in", files[src], "--trace", os.path.join(dd, "t.ndjson"), "--report",
+                                     os.path.join(dd, "r.json"), "--epilogues", crash["epilogues"], "--shard", crash["shard"],
+                                     "--upto", str(crash["beh"])])
+        print(f"harness exit status {p.returncode} (a negative status is a crash by that signal)")
+        return 1 if p.returncode != 0 else 0
     if rec.get("engine") == "sat":
         import engines_sat
         return engines_sat.replay_sat(rec)
